@@ -623,8 +623,8 @@ func c08ClusterID(r *Run) {
 		r.Check(strings.TrimSpace(string(b)) == idB, "c08.clusterid", "the foreign node's clusterid file now says %q", strings.TrimSpace(string(b)))
 	default:
 		// same cluster or no id yet: follows the primary and ends with the primary's id
-		if !left {
-			r.Check(waitPos(rep, h.name, h.db().Pos(), 10*time.Second), "c08.same-cluster-follow", "a node with cluster id %q did not follow the primary of cluster %s", repID, idA)
+		if db := h.db(); !left && db != nil && db.Pos().TXID > 0 { // (a database without a transaction is not streamed at all)
+			r.Check(waitPos(rep, h.name, db.Pos(), 10*time.Second), "c08.same-cluster-follow", "a node with cluster id %q did not follow the primary of cluster %s", repID, idA)
 		}
 		r.Check(rep.Store.ClusterID() == idA, "c08.clusterid", "a node that started with cluster id %q and joined cluster %s reports %q", repID, idA, rep.Store.ClusterID())
 	}
